@@ -407,6 +407,11 @@ func (x *xl) stmt(s ast.Stmt, inElse bool) (ast.Stmt, []ast.Stmt, []string) {
 		t.Stmt = ns
 		return t, pre, ir
 	case *ast.IfStmt:
+		// `else if init; cond {..}` with a shared-memory operation: no statement can be put in
+		// front of an else-if, but `else { if init; cond {..} }` is the same program
+		if ei, ok := t.Else.(*ast.IfStmt); ok && (ei.Init != nil && x.needsSite(ei.Init)) {
+			t.Else = &ast.BlockStmt{List: []ast.Stmt{ei}}
+		}
 		if t.Init != nil {
 			site, pre := x.sited(t, inElse, "if with init")
 			text := other(site, t)
@@ -628,8 +633,18 @@ func main() {
 	ir2Out := flag.String("ir2", "", "write the second IR (Base/ConcIR2.v terms: gen_prog2, gen_sitemap) here")
 	sitemapOut := flag.String("sitemap", "", "write the canonical site table of -ir2 (JSON: function -> site -> canonical site) here")
 	wrapperFns := flag.String("wrappers", "", "-ir2: further functions re-stated as gen_wrappers (Inc,Dec)")
+	mergeDir := flag.String("mergepkg", "", "write the files of this package directory that match the build context as ONE file (-merge) and exit")
+	mergeOut := flag.String("merge", "", "output of -mergepkg")
+	mergeTags := flag.String("tags", "verif", "-mergepkg: build tags of the harness build, comma separated")
 	timedFns := flag.String("timed", "", "-ir2: functions summarised as deadline selects (gen_timed : list WGTimed.timed_shape)")
 	flag.Parse()
+	if *mergeDir != "" {
+		if err := mergePkg(*mergeDir, *mergeOut, strings.Split(*mergeTags, ",")); err != nil {
+			fmt.Fprintln(os.Stderr, "xlate_conc -mergepkg:", err)
+			os.Exit(4)
+		}
+		return
+	}
 	fset := token.NewFileSet()
 	srcBytes, err := os.ReadFile(*src)
 	if err != nil {
